@@ -11,7 +11,7 @@ from __future__ import annotations
 from dataclasses import dataclass, field
 from typing import Dict, List, Optional, Tuple
 
-from .sym import AND, CMP_NEG, FALSE, ITE, NONE, NOT, OR, TRUE, Event, Summary, mk_cmp
+from .sym import walk, AND, CMP_NEG, FALSE, ITE, NONE, NOT, OR, TRUE, Event, Summary, mk_cmp
 
 
 def simplify(t, facts: Dict[tuple, tuple], nonnull=(), vfacts: Optional[Dict[tuple, tuple]] = None):
@@ -90,9 +90,29 @@ def scenarios(s: Summary, table: tuple, key: tuple, nonnull=()) -> Dict[str, Sce
             facts[get1] = NONE
             facts[get2] = NONE
             nn = tuple(nonnull)
+        # `try: ... table[key] ... except KeyError:` is the membership test written as an exception: the handler runs exactly when
+        # the key is absent (when the guarded block reads table[key] and can raise KeyError nowhere else that we know of)
+        dead = set()
+        for tid, T in getattr(s, "tries", {}).items():
+            for h in T.handlers:
+                hid, names = h[0], h[1]
+                if not any(n_.split(".")[-1] in ("KeyError", "LookupError") for n_ in names):
+                    continue
+                body = [e_ for e_ in s.events if tid in e_.handlers and not e_.in_handler]
+                phis = [x for e_ in s.events for x in list(walk(e_.term)) + list(walk(e_.live)) if x[0] == "tryphi" and x[1] == tid and len(x[2]) == 2]
+                reads = any(x == cur for e_ in body for x in walk(e_.term)) or any(y == cur for x in phis for y in walk(x[2][0]))
+                if reads:
+                    facts[("caught", hid, tuple(names))] = FALSE if name == "present" else TRUE
+                    for x in phis:
+                        facts[x] = x[2][0] if name == "present" else x[2][1]  # the value the guarded block / the handler leaves
+                    if name == "absent":
+                        # what the guarded block does with table[key] does not happen: the lookup raises first
+                        dead |= {e_.idx for e_ in body if any(x == cur for x in walk(e_.term))}
         sc = Scenario(name)
         written: Optional[tuple] = None
         for e in s.events:
+            if e.idx in dead:
+                continue
             f2 = dict(facts)
             if written is not None:
                 # reads after the write see the written value
@@ -176,3 +196,57 @@ def cases(*terms, limit=5):
             continue
         seen.add(out)
         yield facts, out
+
+
+def keyerror_as_membership(s: Summary):
+    """{('caught', H, names): ('cmp', 'notin', k, D)} for every `try: ... D[k] ... except KeyError:` of the summary whose guarded block
+    reads exactly one outermost subscript (the lookup written as an exception instead of a membership test).  Stated assumption:
+    the containers on the way to D exist (an inner lookup such as arr.coords[dim] does not raise)."""
+    out = {}
+    for tid, T in getattr(s, "tries", {}).items():
+        for h in T.handlers:
+            hid, names = h[0], h[1]
+            if not any(n_.split(".")[-1] in ("KeyError", "LookupError") for n_ in names):
+                continue
+            cands = []
+            for e_ in s.events:
+                if tid in e_.handlers and not e_.in_handler and e_.kind in ("return", "call", "store"):
+                    t_ = e_.term if e_.kind != "store" else e_.term[2]
+                    if t_[0] == "sub" and t_[2][0] != "slice":
+                        cands.append(t_)
+                for x in list(walk(e_.term)) + list(walk(e_.live)):
+                    if x[0] == "tryphi" and x[1] == tid and len(x[2]) == 2 and x[2][0][0] == "sub" and x[2][0][2][0] != "slice":
+                        cands.append(x[2][0])
+            cands = list(dict.fromkeys(cands))
+            if len(cands) == 1:
+                out[("caught", hid, tuple(names))] = ("cmp", "notin", cands[0][2], cands[0][1])
+    return out
+
+
+def membership_view(s: Summary) -> Summary:
+    """the summary with every such handler condition rewritten as the membership test, and the guarded events that perform the lookup
+    conditioned on the key being present (they complete only then)"""
+    import copy
+    from .sym import subst
+    km = keyerror_as_membership(s)
+    if not km:
+        return s
+    full = dict(km)
+    for k_, v_ in km.items():
+        full[("not", k_)] = ("cmp", "in", v_[2], v_[3])
+    by_try = {}
+    for tid, T in s.tries.items():
+        for h in T.handlers:
+            key = ("caught", h[0], tuple(h[1]))
+            if key in km:
+                by_try[tid] = km[key]
+    evs = []
+    for e in s.events:
+        live = subst(e.live, full)
+        for tid, m in by_try.items():
+            if tid in e.handlers and not e.in_handler and any(x == ("sub", m[3], m[2]) for x in walk(e.term)):
+                live = AND(live, ("cmp", "in", m[2], m[3]))
+        evs.append(Event(e.kind, live, e.term, e.node, e.loops, e.idx, e.handlers, e.in_handler))
+    s2 = copy.copy(s)
+    s2.events = evs
+    return s2
